@@ -1042,11 +1042,24 @@ void recv_loop_cleanup(void *p)
 }
 
 /* WARNING: This Function has cancelable sections*/
+static pthread_mutex_t table_update_mutex = PTHREAD_MUTEX_INITIALIZER;
+
+void rtr_table_update_lock(void)
+{
+	pthread_mutex_lock(&table_update_mutex);
+}
+
+void rtr_table_update_unlock(void)
+{
+	pthread_mutex_unlock(&table_update_mutex);
+}
+
 static int rtr_sync_receive_and_store_pdus(struct rtr_socket *rtr_socket)
 {
 	char pdu[RTR_MAX_PDU_LEN];
 	enum pdu_type type;
 	int retval = RTR_SUCCESS;
+	bool tables_locked = false;
 
 	struct pdu_ipv6 *ipv6_pdus = NULL;
 	unsigned int ipv6_pdus_nindex = 0; // next free index in ipv6_pdus
@@ -1173,6 +1186,11 @@ static int rtr_sync_receive_and_store_pdus(struct rtr_socket *rtr_socket)
 
 			struct pfx_table *pfx_update_table;
 			struct spki_table *spki_update_table;
+
+			// Sockets share the tables: a reload that copies the other sockets' records into a
+			// shadow table and swaps it in later must not overlap with their updates.
+			rtr_table_update_lock();
+			tables_locked = true;
 
 			if (rtr_socket->is_resetting) {
 				RTR_DBG1("Reset in progress creating shadow table for atomic reset");
@@ -1320,6 +1338,9 @@ cleanup:
 		}
 		rtr_socket->is_resetting = false;
 	}
+
+	if (tables_locked)
+		rtr_table_update_unlock();
 
 	lrtr_free(router_key_pdus);
 	lrtr_free(ipv6_pdus);
